@@ -14,16 +14,22 @@ if int(ROUND) >= 4:
                  "leaves something behind; or (iv) TWO COOPERATING EDITS at different sites (possibly different files) that each look correct "
                  "alone and only break the property together. Where the property is about inputs only, prefer an unusual-but-legal input that "
                  "needs two features at once.")
+if int(ROUND) >= 5:
+    ROUNDNOTE += (" Ideas that have NOT been used yet: state hidden somewhere unusual (the class of an object, a default argument, "
+                  "a closure, an enum member, an exception object, a regex cache, sys or logging state, the process environment); an "
+                  "effect that only shows in an unusual observation (hash, ordering, identity, copying/pickling, iteration order, an "
+                  "attribute few callers read); a threshold (size, count, depth) that small inputs never reach; a dependency on the "
+                  "platform or interpreter configuration.")
 TAKEN = {
- "C06": ["a per-call cache of parsed tracks keyed by the section body (identical bodies get the first section's labels)", "replacing read().splitlines() by line iteration with rstrip('\\n') (CRLF via untranslated readers)", "reading the file in fixed 65536-character chunks and gluing lines at chunk boundaries", "an un-anchored header regex so that '<valid header><suffix>' unknown sections are routed", "deriving the difficulty from the header with str.rstrip(instrument) (over-strips some of the 40 names)", "sniffing the file encoding from a fixed 4096-byte prefix in from_filepath"],
- "C11": ["a fast path in the proximal-event search that runs before the hint is validated", "a single-entry 'last lookup' memo on the tempo map that is not exception-safe", "a galloping (exponential) search that drops the last tempo event for some hint distances", "a lazily built bisect index on the tempo map that is published before it is complete (two threads)", "enumerate() over a slice without start= so the returned index is slice-relative", "looking up the sustain-end timestamp for a tick computed from the raw lines instead of the stored sustain"],
- "C13": ["a selection filter that became instruments x difficulties (cross product)", "stripping whitespace before comparing '{' / '}' / '[Header]' in the section partitioner", "tracks shared (same object / memo) between two sections with identical bodies", "a selection memo kept in class attributes that races between two threads with different selections", "iterating over the selection instead of the sections, so a pair listed twice re-reads an exhausted one-shot iterator", "a class-level header table filled lazily on first use (published half-filled to a second thread)"],
- "C14": ["a process-wide memo from line text to parse result, keyed by the text only", "a 'starts with a digit' fast path that raises IndexError on blank lines", "stale regex-match state carried from a parsable line to the following unparsable line after a flattened for/else", "treating whitespace-padded '{' / '}' lines inside a body as structural", "passing the already formatted warning (which contains the raw line) to logging as the %-format string", "widening the N-line regex so an unsupported index raises ValueError instead of RegexNotMatchError"],
- "C15": ["an exact-tick shortcut in timestamp_at_tick that skips the zero-tempo check", "collapsing tempo lines that repeat the current BPM before the ordering check", "a tempo regex that silently drops lines whose value is zero", "an implicit 4/4 time signature supplied when the tick-0 signature is missing", "sorting parsed data by tick inside the shared line dispatcher (re-orders tempo lines before the ordering check)", "skipping the 'tick precedes first event' guard when no hint is given (negative ticks slip through abs())"],
- "C17": ["a mutable default argument dict in Metadata.from_chart_lines shared by all parses", "iterating the section headers through a set (hash-seed dependent order)", "a racy 'last tempo' memo at module level (switch between compare and use)", "a lazily filled section-name table that is left half-filled if the first parse of the process is aborted", "a tick-table memo keyed by id() of a list that may already be garbage", "a class-level scratch buffer that is cleared only on the success path"],
- "C18": ["a ':05' format spec applied to a tuple-valued sustain in __str__", "bypassing the validating wrapper so that a zero tempo reaches a division", "str() of a track without notes raising IndexError", "summing lane bits instead of OR-ing them so a duplicated lane line yields an unknown note value (KeyError)", "re-formatting str(timedelta) by splitting on ':' (breaks at >= 24 h)", "an assert that an open note never shares its tick with a lane note"],
- "C19": ["a tick->time memo stored lazily in the Chart instance's __dict__", "an in-place sort of the track's note list inside the rate query", "a resume hint written in two steps on the shared tempo map (torn between two reader threads)", "track equality implemented through __dict__ so that reading a cached attribute on one twin breaks ==", "repr=False on the track dataclasses so the mixin repr iterates __dict__ while a cached_property fills it", "dropping frozen=True from SyncTrack to sort anchors in __post_init__"],
- "C20": ["moving a TYPE_CHECKING-only import of a name from chartparse.sync to a runtime import in globalevents", "a module-level try/except ImportError import block in track.py that binds names depending on import order", "a package-level __getattr__ that raises KeyError depending on what has been imported", "a per-class rank number taken from a global class-creation counter (differs with import order)", "'from chartparse.track import *' re-exports in three modules (copies a partially initialised module)", "__version__ boilerplate in __init__.py whose 'from importlib import metadata' shadows the metadata submodule"],
+ "C06": ["a per-call cache of parsed tracks keyed by the section body (identical bodies get the first section's labels)", "replacing read().splitlines() by line iteration with rstrip('\\n') (CRLF via untranslated readers)", "reading the file in fixed 65536-character chunks and gluing lines at chunk boundaries", "an un-anchored header regex so that '<valid header><suffix>' unknown sections are routed", "deriving the difficulty from the header with str.rstrip(instrument) (over-strips some of the 40 names)", "sniffing the file encoding from a fixed 4096-byte prefix in from_filepath", "two cooperating edits: a case-insensitive enum _missing_ plus routing by regex-splitting the header (case variants of valid headers get routed)", "a class-level header table filled lazily on first use (half-filled under two threads or after an abort)"],
+ "C11": ["a fast path in the proximal-event search that runs before the hint is validated", "a single-entry 'last lookup' memo on the tempo map that is not exception-safe", "a galloping (exponential) search that drops the last tempo event for some hint distances", "a lazily built bisect index on the tempo map that is published before it is complete (two threads)", "enumerate() over a slice without start= so the returned index is slice-relative", "looking up the sustain-end timestamp for a tick computed from the raw lines instead of the stored sustain", "a recursive scan that hits RecursionError on tempo maps of ~1000 events", "a shared module-level probe object used for bisect (raced by two threads)"],
+ "C13": ["a selection filter that became instruments x difficulties (cross product)", "stripping whitespace before comparing '{' / '}' / '[Header]' in the section partitioner", "tracks shared (same object / memo) between two sections with identical bodies", "a selection memo kept in class attributes that races between two threads with different selections", "iterating over the selection instead of the sections, so a pair listed twice re-reads an exhausted one-shot iterator", "a class-level header table filled lazily on first use (published half-filled to a second thread)", "a per-chart memo of tick->timestamp that skips the hint validation when another section already asked for the tick", "converting the selection to a frozenset with a TypeError fallback that means 'no restriction'"],
+ "C14": ["a process-wide memo from line text to parse result, keyed by the text only", "a 'starts with a digit' fast path that raises IndexError on blank lines", "stale regex-match state carried from a parsable line to the following unparsable line after a flattened for/else", "treating whitespace-padded '{' / '}' lines inside a body as structural", "passing the already formatted warning (which contains the raw line) to logging as the %-format string", "widening the N-line regex so an unsupported index raises ValueError instead of RegexNotMatchError", "reusing one process-wide result map per kind tuple across parses (overlapping parses corrupt each other)", "chunked reading with splitlines() that glues two lines at a chunk boundary"],
+ "C15": ["an exact-tick shortcut in timestamp_at_tick that skips the zero-tempo check", "collapsing tempo lines that repeat the current BPM before the ordering check", "a tempo regex that silently drops lines whose value is zero", "an implicit 4/4 time signature supplied when the tick-0 signature is missing", "sorting parsed data by tick inside the shared line dispatcher (re-orders tempo lines before the ordering check)", "skipping the 'tick precedes first event' guard when no hint is given (negative ticks slip through abs())", "chunked reading that merges a corrupt sync line into its neighbour at a short read", "a 'most recent sync track' memo whose key is stored before the value is built (not exception-safe)"],
+ "C17": ["a mutable default argument dict in Metadata.from_chart_lines shared by all parses", "iterating the section headers through a set (hash-seed dependent order)", "a racy 'last tempo' memo at module level (switch between compare and use)", "a lazily filled section-name table that is left half-filled if the first parse of the process is aborted", "a tick-table memo keyed by id() of a list that may already be garbage", "a class-level scratch buffer that is cleared only on the success path", "a from_filepath result cache validated by (size, mtime)", "except Exception instead of except RegexNotMatchError in the line dispatcher (swallows MemoryError)"],
+ "C18": ["a ':05' format spec applied to a tuple-valued sustain in __str__", "bypassing the validating wrapper so that a zero tempo reaches a division", "str() of a track without notes raising IndexError", "summing lane bits instead of OR-ing them so a duplicated lane line yields an unknown note value (KeyError)", "re-formatting str(timedelta) by splitting on ':' (breaks at >= 24 h)", "an assert that an open note never shares its tick with a lane note", "a line-parse cache with FIFO eviction that raises KeyError after ~4096 insertions", "repr=False on track dataclasses so repr races with cached_property fills (RuntimeError under two threads)"],
+ "C19": ["a tick->time memo stored lazily in the Chart instance's __dict__", "an in-place sort of the track's note list inside the rate query", "a resume hint written in two steps on the shared tempo map (torn between two reader threads)", "track equality implemented through __dict__ so that reading a cached attribute on one twin breaks ==", "repr=False on the track dataclasses so the mixin repr iterates __dict__ while a cached_property fills it", "dropping frozen=True from SyncTrack to sort anchors in __post_init__", "a hand-written memo for last_note_end_timestamp stored inside the loop (partial value after an interrupt / for a concurrent reader)", "a class-level set of 'known missing tracks' shared by all Chart instances"],
+ "C20": ["moving a TYPE_CHECKING-only import of a name from chartparse.sync to a runtime import in globalevents", "a module-level try/except ImportError import block in track.py that binds names depending on import order", "a package-level __getattr__ that raises KeyError depending on what has been imported", "a per-class rank number taken from a global class-creation counter (differs with import order)", "'from chartparse.track import *' re-exports in three modules (copies a partially initialised module)", "__version__ boilerplate in __init__.py whose 'from importlib import metadata' shadows the metadata submodule", "'from chartparse import track' alias in globalevents (stale module object after an interrupted and retried import)", "lazily imported event types cached as module globals of chartparse.track"],
 }
 FOCUS = {
  "C06": "Prefer changes that only show under particular I/O behaviour or configurations when the file is read *by path* or through unusual-but-legal reader objects: e.g. a read() that returns less than asked, a chunk boundary that falls inside a CRLF pair / inside the BOM / inside a multi-byte UTF-8 character, a file larger than some buffer size, a particular combination of BOM + CRLF + section order, an unknown section at a particular place, or one particular header name out of the 40.",
